@@ -98,6 +98,7 @@ func checkC03(c *core.Ctx) {
 	r31 := c.Rule("R3.1", "T", "lazy/eager accessor sibling agreement")
 	r32 := c.Rule("R3.2", "T", "resume protocol of decodeNextLayer and agreement with eager NextDecoder")
 	r33 := c.Rule("R3.3", "T", "NextDecoder is the last PacketBuilder effect in every decoder")
+	addLayerBeforeChaining(c, c.Rule("R3.4", "T", "every decoder adds a layer before chaining (= R1.4): eager NextDecoder refuses to chain from a decoder that added nothing, lazy NextDecoder does not"))
 	r35 := c.Rule("R3.5", "T", "who may read Lazy / SkipDecodeRecovery / DecodeStreamsAsDatagrams")
 	r36 := c.Rule("R3.6", "T", "decoders neither downcast nor retain the PacketBuilder")
 
@@ -401,6 +402,69 @@ func checkC03(c *core.Ctx) {
 				r32.Check(okEmpty, k+"empty-payload-stops", p.InstrPos(edec), "no decode on an empty payload", "eager and lazy disagree on decoding an empty payload")
 				okDec := len(end.Params) == 2 && edec.Call.Value == ssa.Value(end.Params[1])
 				r32.Check(okDec, k+"decoder-is-argument", p.InstrPos(edec), "decodes with the decoder passed in", "eager NextDecoder decodes with something other than its argument")
+			}
+			// eager NextDecoder declines to decode only for reasons lazy decoding shares: the
+			// decoder argument, the last layer, the payload bytes.  A condition on anything else
+			// (number of layers, options, globals) stops eager decoding where lazy decoding goes on.
+			{
+				subject := func(v ssa.Value) string {
+					v = core.StripConv(v)
+					if _, isK := v.(*ssa.Const); isK {
+						return "const"
+					}
+					if len(end.Params) == 2 && v == ssa.Value(end.Params[1]) {
+						return "decoder"
+					}
+					if pth, ok := core.RecvFieldLoad(end, v); ok && lastComp(pth) == "last" {
+						return "last"
+					}
+					if sl, ok := core.IsLen(v); ok {
+						if cl, ok := sl.(*ssa.Call); ok && cl.Call.IsInvoke() && cl.Call.Method.Name() == "LayerPayload" {
+							return "payload"
+						}
+						if pth, ok := core.RecvFieldLoad(end, sl); ok && lastComp(pth) == "data" {
+							return "payload"
+						}
+					}
+					return "other"
+				}
+				bad := ""
+				var badAt ssa.Instruction
+				for _, ret := range core.Returns(end) {
+					if edec != nil && len(ret.Results) == 1 && core.RetOperand(ret, 0) == ssa.Value(edec) {
+						continue
+					}
+					for _, dc := range core.DomConds(ret.Block()) {
+						bo, ok := dc.V.(*ssa.BinOp)
+						if !ok {
+							bad, badAt = "a condition that is not a comparison", ret
+							continue
+						}
+						for _, side := range []ssa.Value{bo.X, bo.Y} {
+							if subject(side) == "other" {
+								bad, badAt = "a comparison of something other than the decoder argument, the last layer or the payload length", ret
+							}
+						}
+					}
+				}
+				if edec != nil {
+					for _, dc := range core.DomConds(edec.Block()) {
+						if bo, ok := dc.V.(*ssa.BinOp); ok {
+							for _, side := range []ssa.Value{bo.X, bo.Y} {
+								if subject(side) == "other" {
+									bad, badAt = "a comparison of something other than the decoder argument, the last layer or the payload length", edec
+								}
+							}
+						} else {
+							bad, badAt = "a condition that is not a comparison", edec
+						}
+					}
+				}
+				if bad == "" {
+					r32.OK(k+"declines-only-like-lazy", p.Pos(end.Pos()), "every condition under which eager NextDecoder does not decode concerns the decoder argument, the last layer or the payload length")
+				} else {
+					r32.Violate(k+"declines-only-like-lazy", p.InstrPos(badAt), "eager NextDecoder decides whether to decode by "+bad+": lazy decoding, which only stores the continuation and decodes later, has no such condition, so beyond it the two modes report different layers", nil)
+				}
 			}
 			// both reject nil decoders with an error
 			for _, fn := range []*ssa.Function{end, lnd} {
